@@ -559,6 +559,13 @@ def finish(chk, level="other", explanation="", level_text=""):
             print(f"VIOLATION property={prop} replay={rp}")
         rc = 1
     errs = getattr(chk, "analysis_errors", [])
+    if not hasattr(chk, "analysis_errors"):
+        chk.analysis_errors = errs
+    # a declared rule without a single obligation would pass vacuously: that is "cannot decide", never a pass
+    have = {o.rule for o in chk.obs}
+    for rid_ in sorted(chk.rules):
+        if rid_ not in have and not any(rid_ in e for e in errs):
+            errs.append(f"{rid_}: the rule produced no obligation on this tree (its anchor was not found; it would pass vacuously)")
     for e in errs:
         print(f"ANALYSIS-ERROR property={prop}: {e}")
     if errs and rc == 0:
